@@ -17,7 +17,12 @@ pub struct UdpCase {
     pub datagrams: Vec<Vec<Vec<u8>>>,
     /// frames whose packets are written afterwards
     pub writes: Vec<Vec<u8>>,
+    /// indices of datagrams before which the connection is read while the peer is idle (the read times out), as happens in
+    /// every real session between bursts
+    pub gaps: Vec<usize>,
 }
+
+const GAP_TIMEOUT: Duration = Duration::from_millis(15);
 
 const READ_TIMEOUT: Duration = Duration::from_secs(2);
 
@@ -52,8 +57,20 @@ fn run_blocking(c: &UdpCase, mode: &Mode) -> Observed {
         peer.connect(a.local_addr().unwrap()).map_err(|e| e.to_string())?;
         a.set_read_timeout(Some(READ_TIMEOUT)).unwrap();
         peer.set_read_timeout(Some(READ_TIMEOUT)).unwrap();
+        let handle = a.try_clone().map_err(|e| format!("bind: clone: {e}"))?;
         let mut framed = insim::net::blocking_impl::Framed::new(Box::new(insim::net::blocking_impl::UdpStream::from(a)), Codec::new(mode.clone()));
-        for d in &c.datagrams {
+        for (k, d) in c.datagrams.iter().enumerate() {
+            if c.gaps.contains(&k) {
+                // idle peer: this read can only time out
+                handle.set_read_timeout(Some(GAP_TIMEOUT)).unwrap();
+                let r = guard(|| framed.read()).map_err(|p| format!("panic: {p}"))?;
+                handle.set_read_timeout(Some(READ_TIMEOUT)).unwrap();
+                let s = crate::transport::render(&r);
+                if !s.starts_with("Err(transient") {
+                    o.results.push(format!("<read on an idle socket returned {s}>"));
+                    return Ok(());
+                }
+            }
             let bytes: Vec<u8> = d.concat();
             let _ = peer.send(&bytes).map_err(|e| format!("peer send: {e}"))?;
             for _ in d {
@@ -111,7 +128,14 @@ fn run_tokio(c: &UdpCase, mode: &Mode) -> Observed {
                 a.connect(peer.local_addr().unwrap()).await.map_err(|e| e.to_string())?;
                 peer.connect(a.local_addr().unwrap()).await.map_err(|e| e.to_string())?;
                 let mut framed = insim::net::tokio_impl::Framed::new(Box::new(insim::net::tokio_impl::UdpStream::from(a)), Codec::new(mode.clone()));
-                for d in &c.datagrams {
+                for (k, d) in c.datagrams.iter().enumerate() {
+                    if c.gaps.contains(&k) {
+                        // idle peer: the read future is dropped by the timeout
+                        if let Ok(r) = tokio::time::timeout(GAP_TIMEOUT, framed.read()).await {
+                            o.results.push(format!("<read on an idle socket returned {}>", crate::transport::render(&r)));
+                            return Ok(());
+                        }
+                    }
                     let bytes: Vec<u8> = d.concat();
                     let _ = peer.send(&bytes).await.map_err(|e| format!("peer send: {e}"))?;
                     for _ in d {
@@ -239,6 +263,9 @@ pub fn judge(c: &UdpCase, ev: &mut Local) -> Result<(), Fail> {
     if c.datagrams.iter().any(|d| d.len() > 1) {
         ev.class("several-packets-per-datagram");
     }
+    if !c.gaps.is_empty() {
+        ev.class("idle-gaps-with-timed-out-reads");
+    }
     ev.max("session-bytes", total as u64);
     ev.max("datagrams", c.datagrams.len() as u64);
     ev.max("largest-datagram", c.datagrams.iter().map(|d| d.iter().map(|f| f.len()).sum::<usize>()).max().unwrap_or(0) as u64);
@@ -250,6 +277,7 @@ fn case_json(c: &UdpCase) -> Value {
         "compressed": c.compressed,
         "datagrams": c.datagrams.iter().map(|d| d.iter().map(|f| hex(f)).collect::<Vec<_>>()).collect::<Vec<_>>(),
         "writes": c.writes.iter().map(|f| hex(f)).collect::<Vec<_>>(),
+        "gaps": c.gaps,
     })
 }
 fn case_from(v: &Value) -> Option<UdpCase> {
@@ -257,6 +285,7 @@ fn case_from(v: &Value) -> Option<UdpCase> {
         compressed: v.get("compressed")?.as_bool()?,
         datagrams: v.get("datagrams")?.as_array()?.iter().map(|d| d.as_array()?.iter().map(|f| unhex(f.as_str()?)).collect::<Option<Vec<_>>>()).collect::<Option<Vec<_>>>()?,
         writes: v.get("writes")?.as_array()?.iter().map(|f| unhex(f.as_str()?)).collect::<Option<Vec<_>>>()?,
+        gaps: v.get("gaps").and_then(|g| g.as_array()).map(|a| a.iter().filter_map(|x| x.as_u64().map(|x| x as usize)).collect()).unwrap_or_default(),
     })
 }
 
@@ -290,7 +319,8 @@ pub fn udp_strategy(max_datagrams: usize) -> impl Strategy<Value = UdpCase> {
         2 => any::<u8>().prop_map(FrameSpec::Big),
         1 => (1u8..30, any::<u8>()).prop_map(|(a, b)| FrameSpec::Tiny(a, b)),
     ];
-    (any::<bool>(), proptest::collection::vec(proptest::collection::vec(frame.clone(), 1..14), 1..max_datagrams), proptest::collection::vec(frame, 0..6)).prop_map(|(compressed, dgrams, writes)| {
+    let gaps = prop_oneof![3 => Just(vec![]), 1 => proptest::collection::vec(any::<prop::sample::Index>(), 1..3)];
+    (any::<bool>(), proptest::collection::vec(proptest::collection::vec(frame.clone(), 1..14), 1..max_datagrams), proptest::collection::vec(frame, 0..6), gaps).prop_map(|(compressed, dgrams, writes, gaps)| {
         let mode = if compressed { Mode::Compressed } else { Mode::Uncompressed };
         // a datagram may carry up to 1020 bytes in either size mode (each frame within it obeys the mode's own limit)
         let limit = 1020;
@@ -309,7 +339,8 @@ pub fn udp_strategy(max_datagrams: usize) -> impl Strategy<Value = UdpCase> {
                 frames
             })
             .collect();
-        UdpCase { compressed, datagrams, writes: writes.iter().map(|f| frame_bytes(f, &mode)).collect() }
+        let gaps = gaps.iter().map(|ix| ix.index(datagrams.len())).collect();
+        UdpCase { compressed, datagrams, writes: writes.iter().map(|f| frame_bytes(f, &mode)).collect(), gaps }
     })
 }
 
@@ -320,8 +351,8 @@ pub fn parts() -> Vec<Box<dyn DynPart>> {
 pub fn run(run: &mut Run) {
     run.rule = "Sessions of up to 400 datagrams on a real loopback UDP socket pair, each datagram 1..13 whole frames (up to 1020 bytes in either size mode) (all kinds, unknown types, \
         maximum-size frames; 4..1020 bytes), cumulative traffic far beyond the 6120-byte receive buffer, sent in lock-step (send one \
-        datagram, read its packets) to a blocking and a tokio connection built over the crate's UDP adaptors; then packets are written \
-        and observed by the peer. Oracle: the packets read equal the frames sent, in order (each frame's verdict in isolation); every \
+        datagram, read its packets) to a blocking and a tokio connection built over the crate's UDP adaptors; in a quarter of the sessions one or two reads happen while the peer is idle (15 ms read timeout \
+        resp. a dropped read future) and the session goes on; then packets are written and observed by the peer. Oracle: the packets read equal the frames sent, in order (each frame's verdict in isolation); every \
         written packet arrives as exactly one datagram equal to its encoded frame. The 2 s read timeout only detects truncation; it \
         never fires in a passing run. Non-trivial = cumulative traffic before some datagram exceeds 6120 bytes minus that datagram."
         .into();
